@@ -1,5 +1,6 @@
 --------------------------- MODULE Trace_DcControl ---------------------------
 EXTENDS DcControl, TraceLib
+CONSTANT KnownF15
 VARIABLES l, hsSeen
 IsEvent(e) == l <= NRec /\ Rec[l].ev = e /\ l' = l + 1
 TInit == DInit /\ l = 1 /\ hsSeen = 0
@@ -17,7 +18,13 @@ T_Ctl == IsEvent("ctl") /\ LET r == Rec[l] IN
                 /\ CASE r.kind = "stale_key" -> cur' = Max2(cur, r.m) /\ UNCHANGED <<has, hs, hsSeen>>
                      [] r.kind \in {"replay_detected", "unknown_path_secret"} -> UNCHANGED dvars /\ hsSeen' = hsSeen + 1
                      [] OTHER -> FALSE
-T_Data == IsEvent("data") /\ LET r == Rec[l] IN Data(r.mutated, r.decoded, r.authentic, r.roundtrip) /\ UNCHANGED hsSeen
+\* known finding F15: in a RETRANSMITTED stream packet the packet-space bit of the tag byte (0x10) is cleared before the
+\* authentication tag is checked (packet/stream/decoder.rs remove_retransmit) and the retransmission tag covers only
+\* the two packet numbers: flipping exactly that bit goes unnoticed (the bit is then ignored, so nothing else follows)
+F15Bit(r) == r.kind = "stream_retx" /\ r.mutated /\ Has(r, "at") /\ r.at = 0 /\ Has(r, "xor") /\ r.xor = 16 /\ r.decoded /\ r.authentic
+T_Data == IsEvent("data") /\ LET r == Rec[l] IN
+            (IF KnownF15 /\ F15Bit(r) THEN PrintT(<<"KNOWN-FINDING", "F15">>) /\ UNCHANGED dvars
+             ELSE Data(r.mutated, r.decoded, r.authentic, r.roundtrip)) /\ UNCHANGED hsSeen
 T_Junk == IsEvent("junk") /\ UNCHANGED <<dvars, hsSeen>>
 \* no action for "panic"
 TNext == T_Draw \/ T_Reset \/ T_Obs \/ T_Ctl \/ T_Data \/ T_Junk
